@@ -329,6 +329,8 @@ class Interp:
     # ---- truthiness ------------------------------------------------------------------------------
     def truthy(self, v, path):
         """bool or z3 Bool"""
+        if isinstance(v, JUnionV):
+            v = self.narrow_json(v, path)
         if isinstance(v, bool):
             return v
         if v is None:
@@ -511,6 +513,12 @@ class Interp:
         """Python ==  ->  bool or z3 Bool"""
         if isinstance(a, Poison) or isinstance(b, Poison):
             raise Unsupported('use of a loop-local value after a summarised loop')
+        if isinstance(a, JUnionV) and isinstance(b, JUnionV) and a.expr.eq(b.expr):
+            return True
+        if isinstance(a, JUnionV):
+            a = self.narrow_json(a, path)
+        if isinstance(b, JUnionV):
+            b = self.narrow_json(b, path)
         if a is None or b is None:
             if a is None and b is None:
                 return True
@@ -778,6 +786,8 @@ class Interp:
 
     # ======================================================================== attribute access
     def getattr_(self, obj, name, path):
+        if isinstance(obj, JUnionV):
+            obj = self.narrow_json(obj, path)
         if isinstance(obj, Poison):
             raise Unsupported(f'use of a loop-local value after a summarised loop ({obj.why})')
         if isinstance(obj, ObjV):
@@ -1585,16 +1595,22 @@ class Interp:
     def call(self, fn, args, kwargs, path):
         if isinstance(fn, BoundMethod):
             if isinstance(fn.func, BuiltinFn):
+                if any(isinstance(a, JUnionV) for a in args):
+                    args = [self.narrow_json(a, path) if isinstance(a, JUnionV) else a for a in args]
                 return fn.func.impl(self, path, [fn.obj] + args, kwargs)
             return self.call_function(fn.func, [fn.obj] + args, kwargs, path)
         if isinstance(fn, FuncV):
             return self.call_function(fn, args, kwargs, path)
         if isinstance(fn, BuiltinFn):
+            if any(isinstance(a, JUnionV) for a in args):       # a builtin observes its arguments: decide their variant
+                args = [self.narrow_json(a, path) if isinstance(a, JUnionV) else a for a in args]
             return fn.impl(self, path, args, kwargs)
         if isinstance(fn, ClassV):
             return self.instantiate(fn, args, kwargs, path)
         if isinstance(fn, BuiltinClass):
             from .builtins_ import call_builtin_class
+            if any(isinstance(a, JUnionV) for a in args):
+                args = [self.narrow_json(a, path) if isinstance(a, JUnionV) else a for a in args]
             return call_builtin_class(self, fn, args, kwargs, path)
         if isinstance(fn, _SuperMethod):
             return self.call_function(fn.func, [fn.obj] + args, kwargs, path)
